@@ -734,6 +734,10 @@ func (c *Case) compareStream(sp *streamPair) {
 				owners = append(owners, "C03")
 			}
 			c.diverge("final-result-differs", owners, "stream %d: final message %+v differs from expected %+v", sp.m.ID, brief(got), e)
+		case !got.Done && e.Done && isTimeoutCause(e):
+			// A time-out of the scheduler should have failed the task;
+			// the stream was sent an ordinary update instead.
+			c.diverge("timeout-failure-not-delivered", []string{"C06", "C02"}, "stream %d (op %s): expected final message %+v after a scheduler time-out, got the update %+v", sp.m.ID, e.Name, e, brief(got))
 		case got.Stage != e.Stage:
 			c.diverge("stage-differs", []string{"C02"}, "stream %d: got stage %s, expected %s (messages %v)", sp.m.ID, got.Stage, e.Stage, briefs(msgs))
 		case got.Name != e.Name:
@@ -2294,6 +2298,24 @@ func (c *Case) leakPhase() {
 }
 
 // ---------------------------------------------------------------------------
+// dynPrefix is the instance name prefix of the worker-created queue that
+// AddDynamicQueueScenario adds to a world.
+const dynPrefix = "dyn"
+
+// AddDynamicQueueScenario extends a world with one worker that creates its
+// own queue (a platform no predeclared queue has) and two cacheable actions
+// that target it, for scenario 5.
+func AddDynamicQueueScenario(w *World) {
+	props := [][2]string{{"os", "verif-dyn"}}
+	w.Workers = append(w.Workers, WorkerDef{ID: map[string]string{"host": "hdyn", "thread": "0"}, Prefix: dynPrefix, Props: props})
+	for i := 0; i < 2; i++ {
+		w.Actions = append(w.Actions, ActionDef{
+			Tag: fmt.Sprintf("dyn%d", i), Instance: dynPrefix, Props: props, InCAS: true,
+			Script: SelScript{ExpDur: 10 * time.Second, Timeout: 60 * time.Second, RetryExpDur: 20 * time.Second, RetryTO: 90 * time.Second, BGExpDur: 5 * time.Second, BGTimeout: 45 * time.Second},
+		})
+	}
+}
+
 // Scenario preludes: multi-step sequences that random generation reaches too
 // rarely. A prelude is a fixed list of steps computed from the world; the
 // reference model judges it like any other step, and random steps follow.
@@ -2302,6 +2324,39 @@ func (c *Case) leakPhase() {
 func (c *Case) scenarioPrelude() []Step {
 	if c.Scenario == 0 {
 		return nil
+	}
+	if c.Scenario == 5 {
+		// A worker-created queue loses its only worker while it still
+		// holds queued tasks with attached clients; after the queue's
+		// own timeout it is removed and must fail what it holds.
+		wi, a1, a2 := -1, -1, -1
+		for i, wd := range c.W.Workers {
+			if wd.Prefix == dynPrefix {
+				wi = i
+			}
+		}
+		for i, a := range c.W.Actions {
+			if a.Instance == dynPrefix {
+				if a1 < 0 {
+					a1 = i
+				} else if a2 < 0 {
+					a2 = i
+				}
+			}
+		}
+		if wi < 0 || a2 < 0 {
+			return nil
+		}
+		c.sit("scenario:worker-created-queue-removed-with-queued-tasks")
+		ms := time.Millisecond
+		return []Step{
+			{K: "sync", W: wi, State: "idle", Pre: 2 * ms},
+			{K: "exec", A: a1, Path: "x", Pre: 2 * ms},
+			{K: "exec", A: a2, Path: "y", Pre: 2 * ms},
+			{K: "exec", A: a2, Path: "x/p", Pre: 2 * ms},
+			{K: "adv", D: c.W.Cfg.WorkerTimeout + time.Second},
+			{K: "adv", D: c.W.Cfg.PQTimeout + time.Second},
+		}
 	}
 	// Find a predeclared queue with at least two size classes, a worker
 	// on its smallest and one on its largest class, and an action that
